@@ -20,7 +20,7 @@ func init() {
 	register(&Check{
 		ID:    "C18",
 		Level: "model_checking",
-		Rule: "the full cross product of the CLI's documented configuration space is executed on the binary built from /repo's tree: {-com,-src} x program {find with matches, find without, replace, compile error, replace with an empty text, two commands} x -files {one file, glob of several, nothing matching, overlapping stars, a wildcard directory segment that also matches plain files, a literal directory segment that is a symbolic link} x stdout {none,-json,-formatted-json,both} x -json-file {absent,present} x -formatted-json-file {absent,present} x -replace-mode {absent,NEW,NOTHING,OVERWRITE,BOGUS,CONFIRM (in the library's enumeration, not offered by the CLI)} x -no-output {no,yes}, plus the invocations that name a JSON output file once more with stale, longer output files already present (10080 invocations in all), each in a fresh scratch directory whose files hold quotes, backslashes, per-cent signs, ESC, 0x01, 0x7f and a non-UTF-8 byte where the program captures them; " +
+		Rule: "the full cross product of the CLI's documented configuration space is executed on the binary built from /repo's tree: {-com,-src} x program {find with matches, find without, replace, compile error, replace with an empty text, two commands} x -files {one file, glob of several, nothing matching, overlapping stars, a wildcard directory segment that also matches plain files, a literal directory segment that is a symbolic link, a literal name that is a link to a directory, a literal name that is a dangling link} x stdout {none,-json,-formatted-json,both} x -json-file {absent,present} x -formatted-json-file {absent,present} x -replace-mode {absent,NEW,NOTHING,OVERWRITE,BOGUS,CONFIRM (in the library's enumeration, not offered by the CLI)} x -no-output {no,yes}, plus the invocations that name a JSON output file once more with stale, longer output files already present (10080 invocations in all), each in a fresh scratch directory whose files hold quotes, backslashes, per-cent signs, ESC, 0x01, 0x7f and a non-UTF-8 byte where the program captures them; " +
 			"oracle: exit status; stdout under -json/-formatted-json is exactly one JSON document equal field by field to the library's result computed in-process on a twin directory; JSON files likewise; directory post-state equals the twin's (mode honoured, NEW default); invalid combinations / unknown mode / compile error: non-zero exit, a message, directory unchanged; states = distinct (configuration class, exit status, directory effect) outcomes, transitions = invocations",
 		Assume: []string{"with -no-output, and with zero matches, what the JSON files contain is not fixed by the documentation: only exit status and directory effects of the mode are checked there"},
 		Budget: map[string]int{"quick": 200, "thorough": 900},
@@ -70,7 +70,8 @@ type cliCfg struct {
 var cliProgs = []string{"find all 'a' (maybe not ' ') = x", "find all 'zzz'", "replace all 'a' with 'XY'", "find all (", "replace all 'b' with ''", "find all 'a'\nfind all 'b' maybe 'a'"}
 // the last pattern has a wildcard directory segment that also matches plain files (b.txt, aba.txt) beside the directory sub
 // the one before: a literal directory segment that is a symbolic link to the directory sub
-var cliGlobs = []string{"a.txt", "*.txt", "zzz*", "a*a.txt", "*b*/a.txt", "lnk/a.txt"}
+// the last two name, literally, a link to a directory and a link to nothing: neither is a file
+var cliGlobs = []string{"a.txt", "*.txt", "zzz*", "a*a.txt", "*b*/a.txt", "lnk/a.txt", "lnk", "gone.txt"}
 // CONFIRM is a member of the library's ReplaceMode enumeration that the CLI does not document or implement
 var cliModes = []string{"", "NEW", "NOTHING", "OVERWRITE", "BOGUS", "CONFIRM"}
 
@@ -113,6 +114,7 @@ func cliSetup(dir string, staleOutputs bool) {
 	os.WriteFile(filepath.Join(dir, "sub", "a.txt"), []byte("a in sub, ab\n"), 0o644)
 	os.WriteFile(filepath.Join(dir, "sub", "c.md"), []byte("aa"), 0o644)
 	os.Symlink("sub", filepath.Join(dir, "lnk"))
+	os.Symlink("nowhere.txt", filepath.Join(dir, "gone.txt"))
 	// output files left over from an earlier, larger run: they must be replaced, not overwritten in place
 	if staleOutputs {
 		stale := "[" + strings.Repeat("{\"stale\":true},", 400) + "{}]"
@@ -256,8 +258,8 @@ func c18Case(c *Ctx, k cliCfg) {
 						}
 					}
 				}
-			} else if !e.IsDir() && globMatch(glob, e.Name()) {
-				list = append(list, filepath.Join(twin, e.Name()))
+			} else if st, err := os.Stat(filepath.Join(twin, e.Name())); err == nil && st.Mode().IsRegular() && globMatch(glob, e.Name()) {
+				list = append(list, filepath.Join(twin, e.Name())) // a link counts as what it points to
 			}
 		}
 	}
